@@ -1,6 +1,6 @@
 (* C19 — Bytes on the wire are those of the published 5.x protocol. *)
 From V Require Import lib.Base lib.Decimal model.Ladder model.Brine model.Channel model.Published proofs.BrineP proofs.PublishedP
-  proofs.ChannelP proofs.WireP model.PubCodec proofs.PubCodecP gen.Gen_brine gen.Gen_consts gen.Gen_channel gen.Gen_protocol.
+  proofs.AdmitsP proofs.ChannelP proofs.WireP model.PubCodec proofs.PubCodecP gen.Gen_brine gen.Gen_consts gen.Gen_channel gen.Gen_protocol.
 Open Scope N_scope.
 
 (* 1. what the code says now = what the published format says: tags, immediates, ladders, struct formats,
@@ -67,6 +67,16 @@ Theorem c19_accepts_alternative_forms :
 Proof. split; [exact accept_str_L1|split; [exact accept_str_L4|split; [exact accept_int_L4|split; [exact accept_tup_L1|exact accept_tup_L4]]]]. Qed.
 Print Assumptions c19_accepts_alternative_forms.
 
+(* 4b. the same at EVERY nesting level. [admits P v bs]: bs is any encoding of v the format admits - the shortest-form one, or
+      any count in its one-byte or four-byte form, any integer as decimal text under either count form, a text value over any
+      admitted encoding of its UTF-8 bytes, tuples / frozensets / slices under any admissible header over items that are again
+      in any admitted form. Every one of them is read back as v by brine.load (the fuel it starts with always suffices), and
+      in mid-stream leaves what follows untouched. *)
+Theorem c19_accepts_any_admitted_encoding : forall P v bs, admits P v bs ->
+  load P bs = Ok v /\ forall rest, load_f P (S (depth v)) (bs ++ rest) = Ok (v, rest).
+Proof. intros P v bs H. split; [exact (admits_load P v bs H)|exact (admits_accepted P v bs H)]. Qed.
+Print Assumptions c19_accepts_any_admitted_encoding.
+
 (* 5. frames: whatever conforming frame an independent sender emits - flag byte zero with the payload as body, or any non-zero
       flag byte with a body the receiver's zlib inflates to the payload, at ANY size (the threshold binds only what rpyc emits) -
       a stream of them read through any benign fragmentation is delivered payload by payload *)
@@ -99,6 +109,24 @@ Example c19_forms_sample :
   load P (x0e :: x05 :: b) = Ok (PBytes b) /\ load P (x0f :: x00 :: x00 :: x00 :: x05 :: b) = Ok (PBytes b)
   /\ dump P (PBytes b) = Ok (x0e :: x05 :: b).
 Proof. vm_compute. repeat split. Qed.
+
+(* non-vacuity for 4b: ((7, "A"),) with the outer tuple under a four-byte count, the inner one under a one-byte count, 7 as
+   decimal text under a four-byte count and the text over a four-byte-count byte string: admitted, 20 bytes against the 6 of the
+   shortest form, and decoded to the same value *)
+Example c19_nested_forms_sample :
+  let P := {| sp := true; maxdigits := 4300 |} in
+  let v := PTuple [PTuple [PInt 7; PStr [65]]] in
+  let bs := (x15 :: be4 1) ++ concat [(x14 :: [b_of 2]) ++ concat [x17 :: be4 1 ++ [x37]; x08 :: (x0f :: be4 1 ++ [x41])]] in
+  admits P v bs /\ load P bs = Ok v /\ length bs = 20%nat /\ (exists c, dump P v = Ok c /\ length c = 6%nat).
+Proof.
+  cbv zeta. split; [|split; [vm_compute; reflexivity|split; [vm_compute; reflexivity|eexists; split; vm_compute; reflexivity]]].
+  apply (A_tuple _ [PTuple [PInt 7; PStr [65]]] [_]); [apply TH_L4; vm_compute; reflexivity|].
+  constructor; [|constructor].
+  apply (A_tuple _ [PInt 7; PStr [65]] [_; _]); [apply TH_L1; [vm_compute; reflexivity|discriminate]|].
+  constructor; [|constructor; [|constructor]].
+  - apply (A_int_L4 _ 7%Z [x37]); [vm_compute; reflexivity|vm_compute; reflexivity].
+  - apply (A_str _ [65] [x41]); [vm_compute; reflexivity|]. apply (A_bytes_L4 _ [x41]). vm_compute; reflexivity.
+Qed.
 
 (* non-vacuity for 5: a plain frame and a "compressed" 3-byte frame (far below the threshold, flag byte 7) through a toy inflater,
    read one byte at a time with a timeout in between, are both delivered *)
